@@ -265,6 +265,7 @@ static void worker_main(PropertyDef *def, const std::string &tier, uint64_t seed
   write_file_host(sfile, sj.dump());
   fprintf(out, "DONE %s\n", sfile.c_str());
   fflush(out);
+  cov_dump();
   _exit(0);
 }
 
